@@ -14,7 +14,7 @@ import os
 import subprocess
 from pathlib import Path
 
-from .. import common, genrun, specgen
+from .. import common, genrun, richgen, specgen
 from ..common import Ctx
 
 LEVEL = "exploration"
@@ -243,6 +243,12 @@ LAYOUTS = [("client1", None), ("acme.client1", None), ("acme.client1", "acme.cor
 
 
 def mk_doc(ctx: Ctx) -> specgen.Doc:
+    if ctx.rng.random() < 0.25:
+        # schema-centred document: many promoted inline schemas, nested containers, named maps / aliases (import and
+        # declaration order of those is where set / dict iteration order could leak)
+        d = richgen.generate(ctx.rng, allow={"anonymous_array_items", "free_form_empty_schema"})
+        d.features = set(d.features) | {"rich_document"}
+        return d
     d = specgen.generate(ctx.rng, prof={"ops": (3, 7), "schemas": (4, 8), "p_stream": 0.3, "stream_kinds": ["sse", "binary", "ndjson"],
                                         "opid_shapes": True, "p_dup_opid": 0.2, "p_param": 0.8})
     # several undeclared path variables in one path: order must not depend on set iteration
